@@ -12,7 +12,7 @@
                              returns it whole; the expression parser then rejects it
                              (C10_sep_replaced_rejected below, Part B). *)
 From Coq Require Import List Arith NArith.
-From Verif Require Import ChecksumModel ChecksumSpec ChecksumTheorems.
+From Verif Require Import ChecksumModel ChecksumSpec ChecksumTheorems ExprTreeModel ExprTreeTotal.
 Import ListNotations.
 Local Open Scope N_scope.
 
@@ -77,6 +77,16 @@ Print Assumptions C10_ck_is_bip380.
    substitutions inside one group of three (C10_ck_one_group).  Missing: three and four in-group
    substitutions spread over different groups (minimum distance 5 of the BCH code over the
    first 676 symbol positions); exercised by the substitution campaign of the check only. *)
+
+(* ======================================================================================
+   Part B: the expression-tree parser of src/expression/mod.rs (model Ms/ExprTreeModel.v). *)
+
+(* No string makes Tree::from_str_inner panic: the node count and maximum depth computed by
+   parse_pre_check are exactly what the second pass needs (the three capacity assertions hold),
+   `expect("'(' only occurs after a node name")` cannot fire and every index is in range.  (-> C11) *)
+Theorem C10_tree_total : forall s, no_panic_t (from_str_inner s).
+Proof. exact tree_total_lemma. Qed.
+Print Assumptions C10_tree_total.
 
 (* ---- non-vacuity: BIP-380's own test vector "raw(deadbeef)#89f8spxm" *)
 Definition ex_payload : bytes := [114; 97; 119; 40; 100; 101; 97; 100; 98; 101; 101; 102; 41].
